@@ -403,7 +403,7 @@ func c16Run(c *mc.Ctx) {
 			if a == b {
 				continue
 			}
-			for _, e := range []string{"Binary.ReadBinary", "Binary.ReadString", "BufferReader.ReadBinary/bytes", "BufferReader.ReadString/stream"} {
+			for _, e := range c16Entries {
 				if !c.Mine() {
 					continue
 				}
@@ -413,17 +413,54 @@ func c16Run(c *mc.Ctx) {
 				}
 				c.Distinct("mixed", e, a, b)
 				c16One(c, c16Case{Entry: e, Lens: []int{a, b}, N: 24})
+				// the same alternation long enough to wrap the span once (the short run never leaves the first span)
+				if nw := 2*(wrap/(a+b+2)) + 4; nw > 24 && a+b <= 8192 {
+					if nw > 3000 && !th {
+						nw = 3000
+					}
+					if nw > 12000 {
+						nw = 12000
+					}
+					c.Distinct("mixed-wrap", e, a, b)
+					c16One(c, c16Case{Entry: e, Lens: []int{a, b}, N: nw})
+				}
 			}
 		}
 	}
 	c.Sample("run", c16Case{Entry: "Binary.ReadString", Lens: []int{128}, N: 8133})
-	c.Done("mixed-class runs: all ordered pairs over 12 length classes alternating, 24 decodes each, 4 entry points")
+	c.Done(fmt.Sprintf("mixed-class runs: all ordered pairs over 12 length classes alternating, 24 decodes each and (pairs up to 8 KiB) a run that wraps the span, %d entry points", len(c16Entries)))
+	// ordered triples: a value of a third class between two of the pair moves every later value to another offset
+	tri := []int{0, 1, 128, 129, 1024, 4096, 65536}
+	if th {
+		tri = []int{0, 1, 127, 128, 129, 256, 1024, 4096, 65536, 131072}
+	}
+	for _, a := range tri {
+		for _, b := range tri {
+			for _, d := range tri {
+				if a == b || b == d || a == d {
+					continue
+				}
+				for _, e := range c16Entries {
+					if !c.Mine() {
+						continue
+					}
+					if c.Expired() {
+						c.Incomplete("triple-class runs: deadline")
+						return
+					}
+					c.Distinct("triple", e, a, b, d)
+					c16One(c, c16Case{Entry: e, Lens: []int{a, b, d}, N: 24})
+				}
+			}
+		}
+	}
+	c.Done(fmt.Sprintf("triple-class runs: all ordered triples of distinct classes over %d length classes, 24 decodes each, %d entry points", len(tri), len(c16Entries)))
 }
 
 func init() {
 	Register(&Check{
 		ID: "C16", Level: "exploration",
-		Rule:        "for every value length class across the span allocator's size classes (0, <128 B, both edges of each class up to 128 KiB, 1 MiB, 1 MiB+1) a run of consecutive decodes from one input long enough to wrap the 1 MiB span, all results retained; all ordered pairs of classes alternating; entry points Binary.ReadBinary/ReadString, BufferReader.ReadBinary/ReadString over bytes and stream readers (with Release between decodes), Base.FastRead and ApplicationException.FastRead (also into values that already hold the arriving message), ConvertUnknownFields; both span-cache settings; oracle = values unchanged after the input is overwritten and pool buffers are recycled+scribbled, capacity ranges pairwise disjoint and disjoint from the input (sorted address sweep), siblings and input unchanged after append/overwrite; distinct = distinct (entry, length classes)",
+		Rule:        "for every value length class across the span allocator's size classes (0, <128 B, both edges of each class up to 128 KiB, 1 MiB, 1 MiB+1) a run of consecutive decodes from one input long enough to wrap the 1 MiB span, all results retained; all ordered pairs of classes alternating (24 decodes, and a span-wrapping run for pairs up to 8 KiB) and all ordered triples of distinct classes, on every entry point; entry points Binary.ReadBinary/ReadString, BufferReader.ReadBinary/ReadString over bytes and stream readers (with Release between decodes), Base.FastRead and ApplicationException.FastRead (also into values that already hold the arriving message), ConvertUnknownFields; both span-cache settings; oracle = values unchanged after the input is overwritten and pool buffers are recycled+scribbled, capacity ranges pairwise disjoint and disjoint from the input (sorted address sweep), siblings and input unchanged after append/overwrite; distinct = distinct (entry, length classes)",
 		Assumptions: []string{"the span-cache switch is a process-wide global: each run toggles it sequentially inside a single-threaded worker and installs a fresh span cache"},
 		Run:         c16Run,
 		Replay: func(c *mc.Ctx, sub string, raw json.RawMessage) {
